@@ -33,7 +33,7 @@ VALS = [0, 1, True, False, None, 1.0, 0.0, -0.0, 2, 'a', '1', '', 'True', 'Ã©ðŸ˜
         {'b': 1, 'a': 2}, {'a': 2, 'b': 1}, {'a': {'y': [None], 'x': 0}}, [[], {}], 2 ** 53, -7, 1e16, 1.5, 'null']
 NAMES = ['a', 'b', 'ab', 'a_', 'k', 'x', 'y', 'z', 'key', 'force', 'cache', 'args', 'kwargs', 'B', 'Ã©']
 METHODS = ['m', 'm2', 'mm', 'M', 'compute', 'm_1']
-VERSIONS = [None, None, '1', '2', '1.0', '1.', '', 'v', 'm', 'Ã© 1']
+VERSIONS = [None, None, '1', '2', '1.0', '1.', '', 'v', 'm', 'Ã© 1', '2.0 beta', '2.0_beta', '2.0-beta']
 STORE = ['S', None, 0, ['s', 1], {'s': None}]
 
 
